@@ -74,6 +74,56 @@ fn compare(report: &mut Report, outs: &[Outcome], labels: &[&str], one_of_used: 
     None
 }
 
+/// The case a libFuzzer input decodes to (shared by the in-process target and the replay of its artefacts).
+pub struct FuzzCase {
+    pub document: String,
+    pub renderings: Vec<(String, String, String)>, // label, ext, text
+    pub one_of: bool,
+}
+
+pub fn fuzz_decode(data: &[u8]) -> Option<FuzzCase> {
+    let mut stats = GenStats::default();
+    let mut cfg = CaseCfg::default();
+    cfg.gen.deprecation_percent = 15;
+    let mut t = Tape::new(data);
+    let b = build_base(&mut t, &cfg, &mut stats)?;
+    let sub = super::subtape(data, 7, 96);
+    let rs = renderings(&mut Tape::new(&sub), &b.world.schema);
+    Some(FuzzCase { document: b.case.document.clone(), renderings: rs.into_iter().map(|r| (r.label.to_string(), r.ext, r.text)).collect(), one_of: one_of_reachable(&b) })
+}
+
+/// Compare the outcomes of one decoded case (used in-process by the fuzz target and through the pool for artefacts).
+pub fn fuzz_judge(outs: &[Outcome], case: &FuzzCase) -> Option<String> {
+    let labels: Vec<&str> = case.renderings.iter().map(|r| r.0.as_str()).collect();
+    let mut dummy = Report::new("C07", "quick", 0);
+    compare(&mut dummy, outs, &labels, case.one_of).map(|(_, what)| what)
+}
+
+fn fuzz_campaign(report: &mut Report) {
+    match crate::fuzz::run_target("c07_sdl_json", report.seed, 64_000, 25) {
+        Err(e) => {
+            report.assumptions.push(format!("libFuzzer tier unavailable, proptest campaign only: {}", e));
+            report.extra.insert("fuzz".into(), json!({"available": false, "why": e}));
+        }
+        Ok(fr) => {
+            report.extra.insert("fuzz".into(), json!({"available": true, "runs": fr.runs, "corpus_size": fr.corpus_size, "cov": fr.cov, "crash_artifacts": fr.artifacts.len()}));
+            report.evaluations += fr.runs;
+            for art in fr.artifacts {
+                let Some(case) = fuzz_decode(&art) else { continue };
+                let scratch = Scratch::new("c07f");
+                let jobs: Vec<Job> = case.renderings.iter().map(|(_, ext, text)| Job { schema_path: scratch.file(text, ext), query: QuerySrc::Text(case.document.clone()), opts: Opts::default(), cwd: None }).collect();
+                let outs = Pool::default().run(&jobs);
+                if let Some(what) = fuzz_judge(&outs, &case) {
+                    let replay = json!({"engine": "e2", "tape_hex": crate::tape::hex(&art), "document": case.document, "options": Opts::default(), "renderings": case.renderings.iter().map(|(l, e, t)| json!({"label": l, "ext": e, "text": t})).collect::<Vec<_>>(), "one_of_used": case.one_of, "observed": what, "found_by": "libFuzzer target c07_sdl_json"});
+                    report.failure(None, "c07:fuzz", &format!("(libFuzzer) {}", what), || replay);
+                } else {
+                    report.count_extra("fuzz_artifacts_not_reproduced_in_isolation", 1);
+                }
+            }
+        }
+    }
+}
+
 fn one_of_reachable(b: &crate::cases::Base) -> bool {
     // an @oneOf input reachable from some operation's variables
     use crate::world::schema::Named;
@@ -185,4 +235,7 @@ pub fn run(report: &mut Report, replay: Option<&Value>) {
         }
     }
     report.extra.insert("generator".into(), json!({"generated": stats.generated, "model_invalid": stats.model_invalid}));
+    if report.thorough() {
+        fuzz_campaign(report);
+    }
 }
